@@ -7,6 +7,7 @@ For a scenario and a set of concrete inputs:
                  run was flagged (loop bound / depth / width) or some path is stuck.
 """
 import z3
+from eth_hash.auto import keccak as _keccak
 
 from harness import engine, refevm
 
@@ -47,7 +48,10 @@ def calldata_bytes(scn, inp):
 def ref_case(scn, inp, fuel=20000):
     accounts = {}
     for a, acc in scn["accounts"].items():
-        accounts[a] = {"code": bytes(acc["code"]), "balance": inp.get("balances", {}).get(a, 0), "storage": {}}
+        st = dict((inp.get("init_scalars") or {}).get(a, {}))
+        for slot, key, v in (inp.get("init_maps") or {}).get(a, []):
+            st[int.from_bytes(_keccak(key.to_bytes(32, "big") + slot.to_bytes(32, "big")), "big")] = v
+        accounts[a] = {"code": bytes(acc["code"]), "balance": inp.get("balances", {}).get(a, 0), "storage": {k: v for k, v in st.items() if v}}
     for a, b in inp.get("balances", {}).items():
         if a not in accounts:
             accounts[a] = {"code": None, "balance": b, "storage": {}}
@@ -159,6 +163,15 @@ def derive_inputs(scn, paths, rng, n_random=4, n_dict=6):
             for a in list(scn["accounts"]) + [inp["caller"]]:
                 inp["balances"][a] = rng.choice([0, 0, 1, 999, 1000, 1001, 10 ** 18])
         inputs.append(inp)
+    if scn.get("symbolic_storage"):
+        # the initial storage is an input as well: scalar slots and mapping entries under the keys the other inputs use
+        vals = [0, 0, 1, 5, 7, 255, (1 << 255), (1 << 256) - 1] + [w for w in words if w < (1 << 16)][:6]
+        for inp in inputs:
+            if rng.random() < 0.25:
+                continue                      # all-zero initial storage
+            keys = sorted(set(list(inp["args"].values()) + [0, 1, 5, inp["caller"]]))[:8]
+            inp["init_scalars"] = {a: {sl: rng.choice(vals) for sl in range(4) if rng.random() < 0.6} for a in scn["accounts"]}
+            inp["init_maps"] = {a: [(sl, k, rng.choice(vals)) for sl in range(3) for k in keys if rng.random() < 0.5] for a in scn["accounts"]}
     return inputs
 
 
